@@ -83,6 +83,14 @@ def apply_op(f, op, val):
     elif k == "rd":
         g, key = _target(f, op[1], op[2])
         g.require_dataset(key, shape=(), dtype="i8")
+    elif k == "rdm":  # require_dataset asking for another shape / an incompatible type than an existing dataset has
+        g, key = _target(f, op[1], op[2])
+        if op[3] == "shape":
+            g.require_dataset(key, shape=(2,), dtype="i8")
+        elif op[3] == "dtype":
+            g.require_dataset(key, shape=(), dtype="S3")
+        else:  # exact type asked for
+            g.require_dataset(key, shape=(), dtype="i4", exact=True)
     elif k == "cpo":  # copy with options: [cpo, src, dst, {opts}]
         f.copy(op[1], op[2], **op[3])
     else:
@@ -102,7 +110,14 @@ def special_value(kind):
         "empty": h5py.Empty("f"),
         "str": "x",
         "marker": np.void(b"\x7f"),
+        # the same stored value (opaque scalar, one byte 0x7f) spelled as 0-d arrays
+        "marker_arr0": np.array(np.void(b"\x7f")),
+        "marker_arrV1": np.array(b"\x7f", dtype="V1"),
     }[kind]
+
+
+# the single reserved value (in every spelling): the documented contract is a loud refusal without effect
+MARKER_KINDS = ("marker", "marker_arr0", "marker_arrV1")
 
 
 def val_repr(v):
